@@ -289,6 +289,8 @@ func runStep(cfg Cfg, k *simk.Kernel, st StepIn) (obs StepObs) {
 			err = k.Mount(st.Cmd.A, parts[0], parts[1], uintptr(fl), parts[2])
 		} else if st.Cmd.Kind == "kumount" {
 			err = k.Unmount(st.Cmd.A, 0)
+		} else if st.Cmd.Kind == "edit" {
+			err = os.WriteFile(st.Cmd.A, []byte(st.Cmd.B), 0644)
 		} else {
 			if missing := manage.CheckBaseSetUp(c); len(missing) > 0 {
 				err = fmt.Errorf("missing items %v", missing)
@@ -516,6 +518,8 @@ func cmdTerm(c Cmd) string {
 		return q.App("CKMount", q.Hx(c.A), q.Hx(parts[0]), q.Hx(parts[1]), q.N(fl), q.Hx(parts[2]))
 	case "kumount":
 		return q.App("CKUmount", q.Hx(c.A))
+	case "edit":
+		return q.App("CEdit", q.Hx(c.A), q.Hx(c.B))
 	}
 	return "CProbe"
 }
